@@ -2,7 +2,8 @@
 (* spec -> code: operation sequences of LinkedControl for groups of 1..3 controllers *)
 EXTENDS LinkedControl, Json, Sequences
 CONSTANTS Depth,
-          Upd      \* controllers whose driver calls update_target
+          Upd,     \* controllers whose driver calls update_target
+          UpdAny   \* FALSE: only the module in control calls update_target (the documented use)
 VARIABLE hist
 
 Obs == [active |-> active', cby |-> cby']
@@ -11,7 +12,7 @@ Rec(a) == hist' = Append(hist, a @@ [exp |-> Obs])
 GInit == /\ CInit
          /\ hist = <<[act |-> "init", n |-> n, exp |-> [active |-> active, cby |-> cby]]>>
 GNext == \/ \E c \in Ctls : TakeOver(c) /\ Rec([act |-> "take", c |-> c])
-         \/ \E c \in Upd : UpdateTarget(c) /\ Rec([act |-> "upd", c |-> c])
+         \/ \E c \in Upd : (UpdAny \/ cby = c) /\ UpdateTarget(c) /\ Rec([act |-> "upd", c |-> c])
          \/ SelfControl /\ Rec([act |-> "self"])
 GSpec == GInit /\ [][GNext]_<<cvars, hist>>
 
